@@ -19,7 +19,7 @@ import vlib, enginelib as E, enginechk as K
 
 SCHEDS = [None, lambda r: "defer:%d" % r.randint(0, 999), lambda r: "mixed:%d" % r.randint(0, 999)]
 ENV = dict(os.environ, VERIF_ITER_MARKS="1")
-TMP = os.path.join(vlib.WORK, "tmp", "impl")
+TMP = os.path.join(vlib.WORK, "tmp", "impl")      # per-check sub-directory is added in Sess
 
 
 def gen_cyclic(rng, sched=None):
@@ -82,7 +82,7 @@ class Sess:
 
 
 def one_history(chk, sess, lines, tag, origin, expect=None):
-    wd = os.path.join(TMP, tag)
+    wd = os.path.join(TMP, chk.pid.lower(), tag)
     for attempt in range(6):
         try:
             rc, out, err, sp, tp = E.run_impl(sess.drv, lines, wd, env=ENV)
@@ -149,6 +149,30 @@ CORPUS = [
 # of 5 used to SUCCEED leaving 2 and 3 IsScanning (their scan records freed), and the next build of 2 crashed (Impl: ibuild_v0, impl_done_quiescent_v0_refuted)
 STALE_SCAN = ["db 1", "rule 0 sig=0 obs=1", "rule 2 sig=0 obs=0 req=3", "rule 3 sig=0 obs=0 req=0 disc=2", "rule 5 sig=0 obs=1 disc=2", "set 0 1", "set 5 1",
               "build 2", "build 5", "build 2", "build 3"]
+
+
+def phase(chk, families, nhist=None, ncyc=None):
+    """The exact-interleaving tie of the small-step model, run as a phase of C02 / C06 / C07 (whose proof gates include Properties_impl.v):
+    families is a subset of {"corpus", "hist", "cyclic"}."""
+    sess = Sess(chk)
+    if "corpus" in families:
+        one_history(chk, sess, STALE_SCAN, "stale-scan", "corpus", expect=["ok", "fail", "fail", "fail"])
+        one_history(chk, sess, ["db 0"] + STALE_SCAN[1:], "stale-scan-nodb", "corpus", expect=["ok", "fail", "fail", "fail"])
+        for i, L in enumerate(CORPUS):
+            one_history(chk, sess, L, "corpus%d" % i, "corpus")
+    if "hist" in families:
+        for i in range(nhist if nhist is not None else chk.n(100, 3000)):
+            rng = random.Random(chk.rng.random())
+            sc = None if i % 2 == 0 else SCHEDS[1 + (i // 2) % 2]
+            L = E.gen_history(rng, sched=sc, nops=(3, 12))
+            one_history(chk, sess, L, "%s%d" % ("sync" if sc is None else "defer", i % 40), "impl gen_history seed=%d index=%d" % (chk.seed, i))
+    if "cyclic" in families:
+        for i in range(ncyc if ncyc is not None else chk.n(80, 3000)):
+            rng = random.Random(chk.rng.random())
+            L = gen_cyclic(rng, SCHEDS[i % 3])
+            one_history(chk, sess, L, "cyc%d" % (i % 40), "impl gen_cyclic seed=%d index=%d" % (chk.seed, i))
+    sess.close()
+    chk.cov["impl_phase"] = "small-step model Engine/Impl.v vs the real engine, identical line by line (families: %s)" % ", ".join(sorted(families))
 
 
 def run(chk):
